@@ -198,6 +198,19 @@ class Tr:
                 return self.coerce(args[0], "Q"), "Q"
             if fn == "bool" and len(args) == 1:
                 return self.coerce(args[0], "bool"), "bool"
+        if isinstance(n, ast.Call) and not n.keywords and len(n.args) == 3 and ast.unparse(n.func) in ("np.clip", "numpy.clip"):
+            # np.clip(x, lo, hi) = minimum(maximum(x, lo), hi)   (additive case, C04/C11)
+            x, lo, hi = (self.expr(a) for a in n.args)
+            if x[1] == "Z" and lo[1] == "Z" and hi[1] == "Z":
+                return f"(Z.min (Z.max {x[0]} {lo[0]}) {hi[0]})", "Z"
+            return f"(Qmin (Qmax {self.coerce(x, 'Q')} {self.coerce(lo, 'Q')}) {self.coerce(hi, 'Q')})", "Q"
+        if isinstance(n, ast.Call) and not n.keywords and len(n.args) == 1 and ast.unparse(n.func) in ("np.square", "numpy.square"):
+            # np.square(x) = x * x   (additive case, C15)
+            x = self.expr(n.args[0])
+            if x[1] == "Z":
+                return f"(Z.mul {x[0]} {x[0]})", "Z"
+            xq = self.coerce(x, "Q")
+            return f"(Qmult {xq} {xq})", "Q"
         raise TranslateError(f"unsupported expression: {key}")
 
     def cmp(self, op, a, b):
